@@ -67,4 +67,32 @@ def parseContours : List (List Pt) → Option (List (List Pt))
       | some r => some (if c.isEmpty then r else c :: r)
     else none
 
+
+/-! ## outlines with named points (`parse.rs` `parse_outline`, incl. the format-1 anchor upgrade) -/
+
+/-- format 1: a contour of exactly one point that is a named `move` is an implicit anchor
+    (`parse.rs:175-186`) -/
+def isImplicitAnchor (c : List (Pt × Bool)) : Bool :=
+  match c with
+  | [(p, true)] => p.typ == .move
+  | _ => false
+
+/-- number the contours -/
+def enumFrom {α : Type} (i : Nat) : List α → List (Nat × α)
+  | [] => []
+  | a :: r => (i, a) :: enumFrom (i + 1) r
+
+/-- `parse_outline`: every contour passes the builder (point names play no part in that); empty contours
+    are dropped; in format 1 the implicit anchors leave the contour list and become anchors.  Result: the
+    kept contours and the anchors, each with its position in the document. -/
+def parseOutline (v1 : Bool) (cs : List (List (Pt × Bool))) :
+    Option (List (Nat × List (Pt × Bool)) × List Nat) :=
+  match parseContours (cs.map (·.map Prod.fst)) with
+  | none => none
+  | some _ =>
+    let ne := (enumFrom 0 cs).filter (fun e => !e.2.isEmpty)
+    if v1 then
+      some (ne.filter (fun e => !isImplicitAnchor e.2), (ne.filter (fun e => isImplicitAnchor e.2)).map (·.1))
+    else some (ne, [])
+
 end C11
